@@ -267,7 +267,7 @@ def st_hist(version):
     @st.composite
     def s(draw):
         r = draw(st.randoms(use_true_random=False))
-        return H.gen_history(r, version, {"p_rm": 0.3, "p_rename": 0.12, "load": 0.8, "steps": (3, 14), "p_readd": 0.1})
+        return H.gen_history(r, version, {"p_rm": 0.3, "p_rename": 0.12, "load": 0.8, "steps": (3, 14), "p_readd": 0.1, "circular_first": 0.25})
     return s()
 
 
